@@ -9,6 +9,8 @@ CONSTANTS
   GBurst = 0
   Costs <- mc_Costs
   MaxT = 3
+  Ttl = 0
+  GcRefilled = TRUE
   MaxArrivals = 4
 VIEW viewAdm
 INVARIANTS TypeOK Inv_C15_Budget
